@@ -31,6 +31,7 @@ EXTENDS Naturals, Sequences, FiniteSets, TLC, Json
 
 CONSTANTS MaxInline,      \* 22
           Lens,           \* byte lengths to try
+          StaticLens,     \* lengths for which the harness has `text!`/`ident!` literals
           SkipValidate,   \* design switch: paths that skip validation
           OrdByForm       \* design switch: Ord compares the storage form first
 
@@ -64,7 +65,7 @@ Applicable(k, p, c) ==
   /\ p = "rkyv_archived_deserialize" => k = "ident"           \* ArchivedIdentifier::deserialize
   /\ p \in CStrPaths => (k = "text" /\ c.class \notin {"nul0", "nulmid", "nullast"})
   /\ p \in ValuePaths => Valid(k, c)                           \* macros reject at compile time
-  /\ p = "static" => c.len <= 64
+  /\ p = "static" => c.len \in StaticLens
   /\ p = "add" => (k = "text" /\ c.len >= 2)
   /\ p = "from_ident" => (k = "text" /\ IdentValid(c))
   /\ p = "default" => (k = "text" /\ c.class = "empty")
@@ -87,7 +88,7 @@ Pairs == { q \in [kind : Kinds, class : CmpClasses, len : Lens \ {0}, rel : Rels
              /\ Valid(q.kind, [class |-> q.class, len |-> q.len])
              /\ q.len >= 3
              /\ (q.pa = "archived") = (q.pb = "archived")      \* archived values compare with each other
-             /\ (q.pa = "static" \/ q.pb = "static") => q.len <= 64
+             /\ (q.pa = "static" \/ q.pb = "static") => q.len \in StaticLens
              /\ (q.pa = "static" /\ q.pb = "static") => q.rel = "same" }
 
 FormRank(f) == CASE f = "static" -> 0 [] f = "inline" -> 1 [] f = "heap" -> 2 [] OTHER -> 3
